@@ -70,6 +70,11 @@ def step (_ : Unit) (j : Json) : Except String (Unit × Drv.Out) := do
     idx := idx + 1
     let dir ← strF s "dir"
     let out ← fld s "out"
+    if fldD s "stalled" == Json.bool true then
+      o := o.diff s!"step {idx}: the session did not complete the step within 10 s"
+      o := o.mon "limitMw" "mw.stalled" s!"step {idx} ({dir}): the middleware session stopped responding (no progress within 10 s)"
+      if docJ != .null then
+        o := o.mon "nip11Chain" "nip11.stalled" s!"step {idx} ({dir}): the session built from the NIP-11 document stopped responding"
     if dir == "c" then
       let m ← clientMsg (← fld s "msg")
       let now ← intF s "now"
